@@ -111,6 +111,19 @@ CHECKS['C05'] = dict(
     note='Real syscalls on a scratch directory; the model resolver is cross-checked against the kernel in every state; '
          'Bash comparison skipped for duplicate-separator patterns and for ** on trees with symlinked directories.')
 
+CHECKS['C04'] = dict(
+    level='exploration', engine='FSX', design='6 C04',
+    technique='explicit-state exploration of file-system states; in every state a differential oracle between two '
+              'implementations: glob() vs globmatch(REALPATH) over all entry spellings and glob results, plus the '
+              'explicit REALPATH clauses; history-dependent failures are confirmed by re-running the chunk in a fresh process',
+    text='All trees with <= 2 create-operations (+ an eighth of the 3-op layer and deeper seed states; thorough <= 3 + '
+         'an eighth of 4) x FS pattern set and pattern lists with NEGATE/exclude x 12 flag sets over GLOBSTAR, '
+         'GLOBSTARLONG, FOLLOW, DOTGLOB, EXTGLOB, MATCHBASE, NODIR, IGNORECASE x root given by root_dir / cwd / dir_fd: '
+         'glob results == candidates accepted by globmatch(REALPATH); non-existent never matches, relative pattern never '
+         'matches an absolute path, a directory-demanding pattern matches a slash-less path iff it is a directory.',
+    note='Link-following configurations are evaluated only on trees without directory cycles (the walk is unbounded '
+         'there by design); every chunk runs in a fresh worker process so that a chunk is a complete replayable history.')
+
 PENDING = {}
 
 
